@@ -115,6 +115,12 @@ func init() {
 			{"design change (undisciplined): Connect moves items in the cycle they were added", [][2]string{
 				{"i <= n => buffer[i].avail <= cycle\n            /\\ (n = Min(Len(buffer), QueueLen - Len(queue)) \\/ buffer[n + 1].avail > cycle)\n            /\\ queue' = queue \\o FunAsSeq([i \\in 1 .. BufferLen + 2",
 					"i <= n => buffer[i].avail <= cycle + 1\n            /\\ (n = Min(Len(buffer), QueueLen - Len(queue)) \\/ buffer[n + 1].avail > cycle + 1)\n            /\\ queue' = queue \\o FunAsSeq([i \\in 1 .. BufferLen + 2"}}, "IndInitU", "IndInvU", "1", false, "NextU"},
+			// comp.Queue: insertion order survives pushes and removal during iteration
+			{"queue: Init => IndInvQ", nil, "Init", "IndInvQ", "0", true, "NextQ"},
+			{"queue: IndInvQ /\\ NextQ => IndInvQ'", nil, "IndInitQ", "IndInvQ", "1", true, "NextQ"},
+			{"probe: IndInitQ admits two queued items", nil, "IndInitQ", "ProbeQShort", "0", false, "NextQ"},
+			{"design change (queue): removal swaps the last item into the hole", [][2]string{
+				{"queue' = SelectSeq(queue, Keep)", "queue' = IF Len(queue) >= 2 /\\ ~Keep(queue[1]) THEN SubSeq(queue, Len(queue), Len(queue)) \\o SubSeq(queue, 2, Len(queue) - 1) ELSE SelectSeq(queue, Keep)"}}, "IndInitQ", "IndInvQ", "1", false, "NextQ"},
 		})
 	})
 	// lruind: the key-value LRU design of spec/KVLru.tla (C13, second half): NoDup /\ WithinCap inductive,
